@@ -86,10 +86,10 @@ def _slot_main(idx: int, cmd_r: int, report_w: int, go_r: int, spec: dict[str, A
         def report(ev: dict[str, Any]) -> None:
             os.write(report_w, (json.dumps(ev) + "\n").encode())
 
-        def gate(kind: str, name: str) -> None:
+        def gate(kind: str, name: str, ctx: str = "") -> None:
             if not armed["on"]:
                 return
-            report({"ev": "gate", "kind": kind, "name": name})
+            report({"ev": "gate", "kind": kind, "name": name, "ctx": ctx})
             b = os.read(go_r, 1)
             if not b:
                 os._exit(0)  # controller is gone
@@ -283,10 +283,10 @@ class Controller:
             self.pending[i] += 1
         seq = len(self.events)
         if kind == "read":
-            self.reads.setdefault(name, []).append((seq, i))
-            for other in range(self.n):
-                if other != i and self.par.get("store") == "sqlite" and False:
-                    pass
+            if g.get("ctx") == "partial_package_probe":
+                self.probe("read_by_partial_package_probe")
+            else:
+                self.reads.setdefault(name, []).append((seq, i))
         if kind == "write":
             self.writes.setdefault(name, []).append((seq, i))
             # invariant: nobody else has already read this record in this run
